@@ -3,8 +3,8 @@
    Models: model/Icc.v (jcicc.c, jdicc.c), model/MarkerRT.v (jcmarker.c, jcapimin.c, jdmarker.c,
    jdapimin.c), model/CopyMarkers.v (transupp.c, tj3Transform); constants: gen/GenIccConst.v. *)
 From Coq Require Import List ZArith Bool Permutation.
-From LJT Require Import lib.Sweep gen.GenIccConst model.MarkerRT model.Icc model.CopyMarkers
-  proofs.C16Consts proofs.IccProofs proofs.IccRoundTrip proofs.MarkerProofs proofs.CopyProofs proofs.HeaderProofs.
+From LJT Require Import lib.Sweep gen.GenIccConst model.MarkerRT model.Icc model.CopyMarkers model.TjHeader
+  proofs.TjProofs proofs.C16Consts proofs.IccProofs proofs.IccRoundTrip proofs.MarkerProofs proofs.CopyProofs proofs.HeaderProofs.
 Import ListNotations.
 Local Open Scope Z_scope.
 
@@ -213,6 +213,14 @@ Theorem C16_density_roundtrip : forall cs j, writes_jfif cs = true ->
   h_major h = j_major j /\ h_minor h = j_minor j.
 Proof. exact density_roundtrip. Qed.
 Print Assumptions C16_density_roundtrip.
+
+(* T1-finite (7 levels x 5 colourspaces): tj3Get(TJPARAM_SUBSAMP) after tj3DecompressHeader = level compressed with *)
+Theorem C16_subsamp_roundtrip : forall level, 0 <= level < TJ_NUMSAMP ->
+  get_subsamp CS_GRAY (tj_factors level 1) = TJSAMP_GRAY /\
+  forall cs n, In (cs, n) color_cases ->
+    get_subsamp cs (tj_factors level n) = if level =? TJSAMP_GRAY then TJSAMP_444 else level.
+Proof. exact subsamp_roundtrip. Qed.
+Print Assumptions C16_subsamp_roundtrip.
 
 (* ---- (6) copy options *)
 Theorem C16_copy_policy : forall opt wj wa ms,
